@@ -1977,16 +1977,19 @@ sexp sexp_inexact_to_exact (sexp ctx, sexp self, sexp_sint_t n, sexp z) {
 }
 
 sexp sexp_string_cmp_op (sexp ctx, sexp self, sexp_sint_t n, sexp str1, sexp str2, sexp ci) {
-  sexp_sint_t len1, len2, len, diff;
+  sexp_sint_t len1, len2, len, diff, i;
   sexp_assert_type(ctx, sexp_stringp, SEXP_STRING, str1);
   sexp_assert_type(ctx, sexp_stringp, SEXP_STRING, str2);
   len1 = sexp_string_size(str1);
   len2 = sexp_string_size(str2);
   len = ((len1<len2) ? len1 : len2);
+  /* strings may contain NUL characters, so no str* functions */
   if (ci==SEXP_FALSE)
-    diff = strncmp(sexp_string_data(str1), sexp_string_data(str2), len);
+    diff = memcmp(sexp_string_data(str1), sexp_string_data(str2), len);
   else
-    diff = strncasecmp(sexp_string_data(str1), sexp_string_data(str2), len);
+    for (i=0, diff=0; i<len && !diff; i++)
+      diff = tolower((unsigned char)sexp_string_data(str1)[i])
+        - tolower((unsigned char)sexp_string_data(str2)[i]);
   if (! diff)
     diff = len1 - len2;
   return sexp_make_fixnum(diff);
